@@ -305,7 +305,7 @@ func runC16(c *core.Ctx) *core.Violation {
 				c.Probe("big_key_route")
 			}
 		}
-		for db := range tgt.DBs {
+		for _, db := range tgt.DBIDs() {
 			for _, k := range tgt.Keys(db) {
 				if !want[fmt.Sprintf("%d/%s", db, k)] {
 					viol = core.Violate("key-unexpected", "", "key %q is in db %d of the target: filtered, vanished, or in the wrong database", clipS([]byte(k)), db)
